@@ -391,7 +391,7 @@ func TestC07(t *testing.T) {
 		}
 	}
 	// always first: the two schedules with delayed Head() calls that defeated the interleaved form before /repo 7d16f07
-	for _, kind := range []string{"range", "answer", "lock"} {
+	for _, kind := range []string{"range", "answer", "lock", "slowwrite", "failwrite_loop", "failwrite_gossip"} {
 		run, ok, err := syncfx.RunStraddle(kind)
 		if err != nil {
 			t.Fatalf("corpus straddle/%s: %v", kind, err)
@@ -403,6 +403,12 @@ func TestC07(t *testing.T) {
 		class := "corpus/straddle_" + kind
 		if kind == "lock" {
 			class = "corpus/append_lock"
+		}
+		if kind == "slowwrite" {
+			class = "corpus/slow_store_write"
+		}
+		if kind == "failwrite_loop" || kind == "failwrite_gossip" {
+			class = "corpus/" + kind
 		}
 		term := fmt.Sprintf("Case07 %s %d %s %s %s %s %s", emit.Z(run.Drift), run.Tail, run.Init, run.Chain, emit.List(run.Acts), emit.B(run.Wait), emit.List(run.Probe))
 		w.Add(term, map[string]any{"class": class, "what": run.Note}, class, true)
